@@ -31,7 +31,7 @@ namespace vf {
 enum VecFeat {
   F_GROW_HEAP = 0, F_SHRINK_INLINE, F_XFER_MIXED, F_INTERIOR, F_EMPTY_ERASE, F_NONPTR_SRC, F_ALIAS, F_LIMIT,
   F_REALLOC, F_HANDOVER, F_FITS_INTERIOR, F_INLINE_XFER, F_RELOCATE, F_TWO_BLOCKS, F_INPUT_SRC, F_FROM_AUX,
-  F_SWAP2, F_BULK, F_RELOC_THEN_MUT, F_ALIAS_HARD, F_SELF_OP, F_CTOR, F_CMP, F_VEC_NFEAT
+  F_SWAP2, F_BULK, F_RELOC_THEN_MUT, F_ALIAS_HARD, F_SELF_OP, F_CTOR, F_CMP, F_ALLOC_FAIL, F_VEC_NFEAT
 };
 inline const char *vec_feat_name(int i) {
   static const char *n[] = {"inline_to_heap_growth", "heap_to_inline_shrink", "move_swap_mixed_states", "interior_insert_erase",
@@ -39,11 +39,11 @@ inline const char *vec_feat_name(int i) {
                             "reallocation", "heap_buffer_handover", "fits_capacity_interior_op", "within_N_transfer_unequal_fill",
                             "memcpy_relocation", "two_heap_blocks", "single_pass_source", "ctor_from_vector_rvalue",
                             "swap2", "bulk_append", "relocate_then_3_mutations", "alias_at_or_after_pos_or_realloc",
-                            "self_assign_or_self_swap", "constructor_rebuild", "comparison"};
+                            "self_assign_or_self_swap", "constructor_rebuild", "comparison", "allocation_failure_survived"};
   return (i >= 0 && i < F_VEC_NFEAT) ? n[i] : 0;
 }
 
-static const int kVecNumOps = 49;
+static const int kVecNumOps = 50;
 
 template <class V>
 struct VecTraits {
